@@ -1,7 +1,7 @@
 \* thorough: every history of length <= 3 over the core alphabet on the other skeletons
 CONSTANTS Alphabet = "core"
  MaxLen = 3
- Skels = {"A", "B", "C", "E", "F"}
+ Skels = {"B", "C", "E", "F"}
 INIT Init
 NEXT Next
 INVARIANT TypeOK
